@@ -139,3 +139,33 @@ V('C14-reader-drops-operand', 'C14', [(DS, "            id = next_byte('Expected
 V('C14-reader-calls-other-method', 'C14', [(DS, "            _ = interpreter.prop2()", "            _ = interpreter.prop1()")], names='Prop2')
 V('C14-else-does-not-raise', 'C14', [(DS, "            raise NotImplementedError(f'Unknown instruction: {instruction}')", "            pass")], names='decode-loop')
 V('C14-twin-reader-renamed-locals', 'C14', [(DS, "            right = interpreter.stack[-1]\n            left = interpreter.stack[-2]\n            _ = interpreter.app(left, right)", "            top = interpreter.stack[-1]\n            below = interpreter.stack[-2]\n            _ = interpreter.app(below, top)")], expect='silent')
+
+# ---------------------------------------------------------------- C11
+PT = PG + 'pattern.py'
+V('C11-exists-no-shadowing', 'C11', [(PT, '    def apply_esubst(self, evar_id: int, plug: Pattern) -> Pattern:\n        if evar_id == self.var:\n            return self\n        return Exists(self.var, self.subpattern.apply_esubst(evar_id, plug))', '    def apply_esubst(self, evar_id: int, plug: Pattern) -> Pattern:\n        return Exists(self.var, self.subpattern.apply_esubst(evar_id, plug))')], names='apply_esubst/Exists')
+V('C11-mu-wrong-sort-compare', 'C11', [(PT, '    def apply_ssubst(self, svar_id: int, plug: Pattern) -> Pattern:\n        if svar_id == self.var:\n            return self\n        return Mu(self.var, self.subpattern.apply_ssubst(svar_id, plug))', '    def apply_ssubst(self, svar_id: int, plug: Pattern) -> Pattern:\n        if svar_id != self.var:\n            return self\n        return Mu(self.var, self.subpattern.apply_ssubst(svar_id, plug))')], names='apply_ssubst/Mu')
+V('C11-implies-inst-left-only', 'C11', [(PT, '        return Implies(self.left.instantiate(delta), self.right.instantiate(delta))', '        return Implies(self.left.instantiate(delta), self.right)')], names='instantiate/Implies')
+V('C11-metavar-wraps-wrong-ctor', 'C11', [(PT, '        return ESubst(pattern=self, var=EVar(evar_id), plug=plug)\n\n    def apply_ssubst(self, svar_id: int, plug: Pattern) -> Pattern:\n        if SVar(svar_id) in self.s_fresh:', '        return SSubst(pattern=self, var=SVar(evar_id), plug=plug)\n\n    def apply_ssubst(self, svar_id: int, plug: Pattern) -> Pattern:\n        if SVar(svar_id) in self.s_fresh:')], names='apply_esubst/MetaVar')
+V('C11-esubst-inst-plug-not-instantiated', 'C11', [(PT, '        return self.pattern.instantiate(delta).apply_esubst(self.var.name, self.plug.instantiate(delta))', '        return self.pattern.instantiate(delta).apply_esubst(self.var.name, self.plug)')], names='instantiate/ESubst')
+V('C11-evar-subst-returns-self', 'C11', [(PT, '        if evar_id == self.name:\n            return plug\n        return self', '        if evar_id == self.name:\n            return self\n        return self')], names='apply_esubst/EVar')
+V('C11-notation-subst-on-body', 'C11', [(PT, '        return self.simplify().apply_esubst(evar_id, plug)', '        return Instantiate(self.pattern.apply_esubst(evar_id, plug), self.inst)')], names='Instantiate')
+V('C11-rust-app-one-side', 'C11', [(RS, '        Pattern::App { left, right } => app(\n            apply_esubst(left, evar_id, plug),\n            apply_esubst(right, evar_id, plug),\n        ),', '        Pattern::App { left, right } => app(\n            apply_esubst(left, evar_id, plug),\n            Rc::clone(right),\n        ),')], names='apply_esubst/App')
+V('C11-rust-inst-exists-drops-binder', 'C11', [(RS, '            Some(exists(*var, new_sub?))', '            Some(mu(*var, new_sub?))')], names='instantiate_internal/Exists')
+V('C11-twin-shadow-ne', 'C11', [(PT, '    def apply_esubst(self, evar_id: int, plug: Pattern) -> Pattern:\n        if evar_id == self.var:\n            return self\n        return Exists(self.var, self.subpattern.apply_esubst(evar_id, plug))', '    def apply_esubst(self, evar_id: int, plug: Pattern) -> Pattern:\n        if evar_id != self.var:\n            return Exists(self.var, self.subpattern.apply_esubst(evar_id, plug))\n        return self')], expect='silent')
+V('C11-twin-no-empty-shortcut', 'C11', [(PT, '    def instantiate(self, delta: Mapping[int, Pattern]) -> Pattern:\n        if not delta:\n            return self\n        return App(', '    def instantiate(self, delta: Mapping[int, Pattern]) -> Pattern:\n        return App(')], expect='silent')
+
+# ---------------------------------------------------------------- C12
+V('C12-deconstruct-no-see-through', 'C12', [(PT, '        if isinstance(pat, Exists):\n            return pat.var, pat.subpattern\n        if isinstance(pat, Instantiate):\n            return Exists.deconstruct(pat.simplify())\n        return None', '        if isinstance(pat, Exists):\n            return pat.var, pat.subpattern\n        return None')], names='Exists.deconstruct')
+V('C12-unwrap-no-see-through', 'C12', [(PT, '        if isinstance(pattern, Instantiate):\n            return cls.unwrap(pattern.simplify())\n        if isinstance(pattern, cls):', '        if isinstance(pattern, cls):')], names='unwrap')
+V('C12-notation-esubst-on-body', 'C12', [(PT, '        return self.simplify().apply_ssubst(svar_id, plug)', '        return Instantiate(self.pattern.apply_ssubst(svar_id, plug), self.inst)')], names='apply_ssubst')
+V('C12-eq-structural', 'C12', [(PT, '        return self.simplify() == o', '        return self.pattern == o')], names='__eq__')
+V('C12-nary-no-see-through', 'C12', [(PG + 'proofs/kore.py', '        case Instantiate(_, _):\n            # TODO: Consider something smarter here.\n            return deconstruct_nary_application(p.simplify())\n', '')], names='deconstruct_nary_application')
+V('C12-twin-instantiate-first', 'C12', [(PT, '        if isinstance(pat, Mu):\n            return pat.var, pat.subpattern\n        if isinstance(pat, Instantiate):\n            return Mu.deconstruct(pat.simplify())\n        return None', '        if isinstance(pat, Instantiate):\n            return Mu.deconstruct(pat.simplify())\n        if isinstance(pat, Mu):\n            return pat.var, pat.subpattern\n        return None')], expect='silent')
+
+# ---------------------------------------------------------------- C13
+V('C13-match-truthiness', 'C13', [(PT, '        if submatch is None:\n            return None', '        if not submatch:\n            return None')], names='match')
+V('C13-matches-walrus', 'C13', [(PT, '        match = self.matches(pattern)\n        if match is not None:\n            return match', '        if match := self.matches(pattern):\n            return match')], names='assert_matches')
+V('C13-evar-deconstruct-truthiness', 'C13', [(PT, '    if (pat_evar is not None) and (inst_evar is not None):', '    if pat_evar and inst_evar:')], names='pat_evar')
+V('C13-rebinds-bound-metavar', 'C13', [(PT, '        if id in ret:\n            if ret[id] != instance:\n                return None\n        else:', '        if id in ret:\n            ret[id] = instance\n        else:')], names='bound-metavariable')
+V('C13-twin-tuple-truthiness-fixed-len', 'C13', [(PT, '    if (pat_ex := Exists.deconstruct(pattern)) and (inst_ex := Exists.deconstruct(instance)):', '    pat_ex = Exists.deconstruct(pattern)\n    inst_ex = Exists.deconstruct(instance)\n    if pat_ex and inst_ex:')], expect='silent')
+V('C13-twin-is-not-none', 'C13', [(PT, '        if submatch is None:\n            return None', '        if submatch is not None:\n            ret = submatch\n            continue\n        return None')], expect='silent')
